@@ -1331,7 +1331,11 @@ class Kconfig(object):
                 )
             )
 
-            self.set_value_and_source(sym, val if val[0] not in ("'", '"') else val[1:-1], filename)
+            # The value is read like the value of a regular assignment: it may be empty (e.g. an int option without
+            # a value) and a quoted string is unescaped.
+            if val[:1] in ("'", '"'):
+                val = unescape(val[1:-1])
+            self.set_value_and_source(sym, val, filename)
             return sym
 
         in_deprecated_block = False
